@@ -27,6 +27,15 @@ pub fn compress_fastest<M: Matcher>(
     // First check to see if run length encoding can be used for the entire block
     if uncompressed_data.iter().all(|x| uncompressed_data[0].eq(x)) {
         let rle_byte = uncompressed_data[0];
+        vhit!(enc_blk_rle);
+        #[cfg(feature = "verif_hooks")]
+        crate::verif::enc_event(crate::verif::EncEvent::Block {
+            block_type: 1,
+            raw_fallback: false,
+            last_block,
+            input_size: block_size,
+            block_size,
+        });
         state.matcher.commit_space(uncompressed_data);
         state.matcher.skip_matching();
         let header = BlockHeader {
@@ -46,6 +55,27 @@ pub fn compress_fastest<M: Matcher>(
         // If compression does not shrink the block, store it raw instead.
         // Also preserve the format guard that compressed blocks must not
         // exceed the maximum block size.
+        #[cfg(feature = "verif_hooks")]
+        {
+            let fallback =
+                compressed_size >= block_size as usize || compressed_size > MAX_BLOCK_SIZE as usize;
+            if fallback {
+                vhit!(enc_blk_raw_fallback);
+            } else {
+                vhit!(enc_blk_compressed);
+            }
+            crate::verif::enc_event(crate::verif::EncEvent::Block {
+                block_type: if fallback { 0 } else { 2 },
+                raw_fallback: fallback,
+                last_block,
+                input_size: block_size,
+                block_size: if fallback {
+                    block_size
+                } else {
+                    compressed_size as u32
+                },
+            });
+        }
         if compressed_size >= block_size as usize || compressed_size > MAX_BLOCK_SIZE as usize {
             let header = BlockHeader {
                 last_block,
